@@ -1832,7 +1832,7 @@ write_module_support(ostream &out, ostream *out_h, InterrogateModuleDef *def) {
     out << "  nullptr,  /* fptrs */\n"
         << "  0,  /* num_fptrs */\n";
     out << "  1,  /* first_index */\n"
-        << "  " << InterrogateDatabase::get_ptr()->get_next_index()
+        << "  " << InterrogateDatabase::get_ptr()->get_next_index_after_remap(1)
         << "  /* next_index */\n"
         << "};\n\n";
   }
